@@ -196,6 +196,7 @@ CATALOGUE = [
     ("C16", "c16-iterator-reads-parameter", SL, "        self.parent.param_values = {\n            k: v for k, v in saved_param_values.items() if k not in iteration_locals\n        }\n", "", 1, "fire", "C16-R11"),
     ("C02", "c02-wildcard-counts-scalar", EP, "        if left_operand in (\"signal-anything\", \"signal-everything\") and isinstance(\n            right_operand, str\n        ):", "        if False:", 1, "fire", "C02-R14"),
     ("C02", "c02-bundle-const-inlined", SA, "            if producer.signals:\n                # A bundle constant has no single literal that could be inlined\n                entry.should_materialize = True\n                return\n", "", 1, "fire", "C02-R15"),
+    ("C12", "c12-no-fanout-conflicts", WR, "                        graph[joining].add(other)\n                        graph[other].add(joining)\n", "                        pass\n", 1, "fire", "C12-R10"),
     ("C10", "c10-remainder-sign", "dsl_compiler/src/common/int32.py", "    return left - right * trunc_div(left, right)", "    remainder = abs(left) % abs(right)\n    return -remainder if (left < 0) != (right < 0) else remainder", 1, "fire", "C10-R17"),
     ("C11", "c11-remainder-sign", "dsl_compiler/src/common/int32.py", "    return left - right * trunc_div(left, right)", "    remainder = abs(left) % abs(right)\n    return -remainder if (left < 0) != (right < 0) else remainder", 1, "fire", "witness"),
 ]
